@@ -216,6 +216,17 @@ Definition workloop (c : cfg) (ins : list (rcv req))
   : list ev * exit * Z * (bool * nat * nat) :=
   let '(l, x, n) := loop c 0 ins in (l, x, n, ensure (counter c) n).
 
+(* ---- Worker.__call__ / _do_exit: the status the process exits with, also sent in the
+   DEATH message and given to on_exit.  `sys.exit` is wrapped to record its argument; a
+   SystemExit raised directly (by the protected receive) is NOT recorded. *)
+Definition do_exit_code (recorded : option Z) (exc : bool) : Z :=
+  match recorded with Some c => c | None => if exc then EX_FAILURE else EX_OK end.
+Definition recorded_status (x : exit) : option Z :=
+  match x with XReturn c => Some c | _ => None end.
+Definition left_by_exception (x : exit) : bool :=
+  match x with XAssert => true | _ => false end.
+Definition call_status (x : exit) : Z := do_exit_code (recorded_status x) (left_by_exception x).
+
 (* ---- views of an event list *)
 Definition is_proto (e : ev) : bool :=
   match e with EPut _ | ERun _ _ => true | _ => false end.
@@ -327,9 +338,11 @@ Definition p_ack (pc : pcfg) (s : ar) (t pid : Z) (fd : option Z) (cb_raises : b
                then match fd_truthy fd with Some f => [OSendAck ACK pid f] | None => [] end
                else [])).
 
-(* on_ready -> ApplyResult._set *)
+(* on_ready -> ApplyResult._set (first outcome wins: a job already resolved ignores
+   later results -- /repo commit "an ApplyResult keeps its first outcome") *)
 Definition p_set (pc : pcfg) (s : ar) (ok : bool) (v : Z) : ar * list pout :=
   if negb (in_cache s) then (s, [])
+  else if is_ready s then (s, [])
   else
     (mk_ar (accepted s) (cancelled s) (worker_pid s) (time_accepted s) true
            (if accepted s then false else in_cache s),
@@ -426,12 +439,16 @@ Fixpoint accept_first (seen : bool) (l : list pout) : bool :=
 (* implementation's observation of a worker run: events, exit, the argument given to
    _ensure_messages_consumed (None: never called), its result, counter reads, sleeps *)
 Definition wobs := (list ev * exit * option Z * option bool * Z * Z)%type.
+(* when the case was run through the real Worker.__call__: (pid, status) given to on_exit,
+   (pid, status) of the DEATH message, status given to os._exit, the 1 s sleep happened *)
+Definition cobs := (option (Z * Z) * option (Z * Z) * option Z * bool)%type.
 (* implementation's observation of a parent run: outputs, accepted, pid, time, ready,
    in cache, worker_pids() *)
 Definition pobs := (list pout * bool * option Z * option Z * bool * bool * list Z)%type.
 
 Inductive case :=
 | WCase (c : cfg) (ins : list (rcv req)) (o : wobs)
+| CCase (c : cfg) (ins : list (rcv req)) (o : wobs) (co : cobs)   (* via Worker.__call__ *)
 | PCase (pc : pcfg) (evs : list pev) (o : pobs).
 
 (* 0 = identical.  2 = the property-relevant observable differs: for the worker the
@@ -440,17 +457,30 @@ Inductive case :=
    trace is rejected by the protocol monitor; for the parent the callbacks / responses
    / ownership record.  1 = only bookkeeping events (polls, clock and memory reads,
    number of counter polls) differ. *)
+Definition check_worker (c : cfg) (ins : list (rcv req)) (o : wobs) : Z :=
+  let '(il, ix, icomp, iens, ireads, isleeps) := o in
+  let '(l, x, n, (b, reads, sleeps)) := workloop c ins in
+  if negb (monitor il) then 2
+  else if negb (list_eqb ev_eqb (proto il) (proto l)) then 2
+  else if negb (exit_eqb ix x) then 2
+  else if negb (opt_eqb Z.eqb icomp (Some n)) then 2
+  else if negb (opt_eqb Bool.eqb iens (Some b)) then 2
+  else if list_eqb ev_eqb il l && (ireads =? Z.of_nat reads) && (isleeps =? Z.of_nat sleeps)
+  then 0 else 1.
+
+Definition zz_eqb := pair_eqb Z.eqb Z.eqb.
+
 Definition check_case (k : case) : Z :=
   match k with
-  | WCase c ins (il, ix, icomp, iens, ireads, isleeps) =>
-    let '(l, x, n, (b, reads, sleeps)) := workloop c ins in
-    if negb (monitor il) then 2
-    else if negb (list_eqb ev_eqb (proto il) (proto l)) then 2
-    else if negb (exit_eqb ix x) then 2
-    else if negb (opt_eqb Z.eqb icomp (Some n)) then 2
-    else if negb (opt_eqb Bool.eqb iens (Some b)) then 2
-    else if list_eqb ev_eqb il l && (ireads =? Z.of_nat reads) && (isleeps =? Z.of_nat sleeps)
-    then 0 else 1
+  | WCase c ins o => check_worker c ins o
+  | CCase c ins o (ionexit, ideath, iosexit, isleep1) =>
+    let w := check_worker c ins o in
+    if w =? 2 then 2 else
+    let st := call_status (snd (fst (fst (workloop c ins)))) in
+    let who := (eff_pid c, st) in
+    if opt_eqb zz_eqb ionexit (Some who) && opt_eqb zz_eqb ideath (Some who)
+       && opt_eqb Z.eqb iosexit (Some st)
+    then (if isleep1 then w else 1) else 2
   | PCase pc evs (io, iacc, ipid, itime, iready, icache, ipids) =>
     let (s, o) := p_run pc (ar_init pc) evs in
     if list_eqb pout_eqb io o && Bool.eqb iacc (accepted s) && oz_eqb ipid (worker_pid s)
